@@ -14,7 +14,8 @@ RULE = ('BlockSpecs rendered as text with: shuffled line order inside each secti
         'spacing variants around "=", the three lag spellings, initial conditions, with/without a user-defined t, seven '
         'spellings of the section-marker line, trailing comments and pure comment lines drawn from adversarial text '
         '("=", "#", digits, "(0)", "(k-1)", the word exogenous in any case - the latter only in TRAILING comments, since a '
-        'pure comment line with the word is a marker by documented usage), malformed lines (no "=", several "="). '
+        'pure comment line with the word is a marker by documented usage; one third of the comments are 2-3 phrases joined '
+        'by blanks or further "#" characters), malformed lines (no "=", several "="). '
         'Oracle: parser lists equal the spec in order; every malformed line is named in the returned message; t = k '
         'added iff the user gave none; the same block without comments parses to identical lists. Non-trivial: a trailing '
         'comment containing the marker word on a line before the marker, or a malformed line, or a comment with "=" . '
@@ -31,6 +32,26 @@ COMMENT_WORDS = ['an exogenous shock', 'Exogenous', 'EXOGENOUS!', 'a=b', 'x = 5'
                  'x(k-1)', 'LAG(t-1)', '100%', 'MaxTime = 7', 'Err_Tolerance=1', "it's", 'rate 0.025', 't = k',
                  'pre-exogenous era', 'note', '[1] Household', 'Demand for goods (GOOD)']
 SAFE_COMMENTS = [c for c in COMMENT_WORDS if 'exogenous' not in c.lower()]
+COMMENT_JOINS = [' # ', ' ', '#', '; ', ' ## ']
+
+
+@st.composite
+def comment_text(draw, words, none_weight=1):
+    """None, one phrase, or 2-3 phrases joined by blanks / further '#' characters (so that the marker word can sit
+    before, between or after several '#' on one line)."""
+    if none_weight and draw(st.sampled_from([True] * none_weight + [False] * 4)):
+        return None
+    first = draw(st.sampled_from(words))
+    from harness import gen
+    if not draw(gen.chance(1, 3)):
+        return first
+    parts = [first] + [draw(st.sampled_from(words)) for _ in range(draw(st.sampled_from([1, 1, 2])))]
+    out = parts[0]
+    for p_ in parts[1:]:
+        out += draw(st.sampled_from(COMMENT_JOINS)) + p_
+    return out
+
+
 MALFORMED = ['Cat!', 'just words', 'x == 3', 'a = b = c', '42', 'y + 1', 'z = 1 = 2']
 
 
@@ -46,9 +67,9 @@ def case(draw):
     n_endo_lines = len(spec['eqs']) + len(spec['lags']) + len(spec['ics'])
     spec['layout']['perm'] = draw(st.permutations(list(range(n_endo_lines))))
     spec['marker'] = draw(st.sampled_from(MARKERS))
-    spec['endo_comments'] = [draw(st.sampled_from([None, None] + COMMENT_WORDS)) for _ in range(n_endo_lines)]
-    spec['exo_comments'] = [draw(st.sampled_from([None] + COMMENT_WORDS)) for _ in spec['exo']]
-    spec['pure'] = [[draw(st.integers(0, n_endo_lines)), draw(st.sampled_from(SAFE_COMMENTS))]
+    spec['endo_comments'] = [draw(comment_text(COMMENT_WORDS, 2)) for _ in range(n_endo_lines)]
+    spec['exo_comments'] = [draw(comment_text(COMMENT_WORDS, 1)) for _ in spec['exo']]
+    spec['pure'] = [[draw(st.integers(0, n_endo_lines)), draw(comment_text(SAFE_COMMENTS, 0))]
                     for _ in range(draw(st.integers(0, 2)))]
     spec['malformed'] = [[draw(st.integers(0, n_endo_lines)), draw(st.sampled_from(MALFORMED))]
                          for _ in range(draw(st.sampled_from([0, 0, 0, 1, 2])))]
@@ -181,6 +202,9 @@ def run(spec):
     eq_in_comment = any(c is not None and '=' in c for c in spec['endo_comments'] + spec['exo_comments'])
     if eq_in_comment:
         labels.append('equals-in-comment')
+    if any(c is not None and 'exogenous' in c.lower().split('#')[0] and '#' in c
+           for c in spec['endo_comments'] + spec['exo_comments']):
+        labels.append('hash-after-marker-word-in-comment')
     if any(e[0].startswith('tk') for e in spec['eqs']):
         labels.append('time-index-arithmetic')
     return {'nontrivial': marker_word_before or bool(spec['malformed']) or eq_in_comment, 'labels': labels}
@@ -195,7 +219,7 @@ DESC_TEXTS = COMMENT_WORDS + ['Exogenous Variables', 'exogenous = [1, 2]', '# Ex
 def model_case(draw):
     from harness import econ
     spec = draw(econ.economy(zones=(1, 2), horizon=(2, 3)))
-    texts = draw(st.lists(st.sampled_from(DESC_TEXTS), min_size=3, max_size=8))
+    texts = draw(st.lists(comment_text(DESC_TEXTS, 0), min_size=3, max_size=8))
     return {'spec': spec, 'texts': texts}
 
 
